@@ -66,7 +66,7 @@ def analyse_unit(run, u, rule_ro, per_policy):
         for s in e.stops:
             if s["kind"] == "indirect" and "::operator()(" not in s["fn"]:
                 run.broken.append("indirect call outside method::operator() on the call path: %s @ %s" % (s["fn"][:120], s["where"]))
-        what = "%s %s" % (kind, f.dname[:160])
+        what = "%s %s" % (kind, f.dname)
         run.instance(rule_ro, what, f.where(), ok=not bad,
                      detail={"functions_reached": len(e.funcs), "stops": len(e.stops), "atomics": len(e.atomics)})
         for w in bad:
@@ -104,7 +104,7 @@ def analyse_repo_unit(run, u, rule):
                 continue
             bad.append(w)
         n += 1
-        run.instance(rule, "%s: %s %s" % (u["file"], kind, re.sub(r"yorel::yomm2::", "", d)[:140]), f.where(), ok=not bad)
+        run.instance(rule, "%s: %s %s" % (u["file"], kind, re.sub(r"yorel::yomm2::", "", d)), f.where(), ok=not bad)
         for w in bad:
             tgt = ", ".join(eff.fmt_prov(mod, w["prov"]))
             fnq = irq.base_name(irq.strip_ret(w["fn"])) if irq.param_list(irq.strip_ret(w["fn"])) is not None else w["fn"]
